@@ -280,12 +280,17 @@ func C18_Cluster() {
 func C18_DumpLoad() {
 	d := verif.Byte("digit")
 	verif.Assume(d >= '0' && d <= '9')
-	src := "var x = 3\nprint x * 1" + string([]byte{d}) + "\nprint 9 / " + string([]byte{d}) + "\n"
-	form := verif.Choice("form", 5)
+	src := "var x = 3\nprint x * 1" + string([]byte{d}) + "\nprint 72057594037927936\nprint -0x7fffffffffffffff\nprint 9 / " + string([]byte{d}) + "\n"
+	form := verif.Choice("form", 8)
 	var dumpArgs, loadArgs []string
 	bfile := "p.bcb"
+	fname := "p.bcl"
 	stdin := ""
 	switch form {
+	case 5, 6, 7: // the dump name is derived from FILE by replacing its suffix
+		fname = []string{"calc.bcl", "lib.bcl", "a.b.bcl"}[form-5]
+		bfile = fname[:len(fname)-4] + ".bcb"
+		dumpArgs, loadArgs = []string{"--bdump", fname}, []string{"--bload", bfile}
 	case 3: // the program comes from standard input (file omitted)
 		bfile, stdin = "out.bin", src
 		dumpArgs, loadArgs = []string{"--bdump=out.bin"}, []string{"--bload=out.bin"}
@@ -304,7 +309,7 @@ func C18_DumpLoad() {
 	if extra := []string{"", "-d", "-t", "-dt"}[verif.Choice("extra", 4)]; extra != "" {
 		dumpArgs, loadArgs = append(dumpArgs, extra), append([]string{extra}, loadArgs...)
 	}
-	s1, o1, e1, names, contents := verif.RunCmd(dumpArgs, stdin, []string{"p.bcl"}, []string{src})
+	s1, o1, e1, names, contents := verif.RunCmd(dumpArgs, stdin, []string{fname}, []string{src})
 	found := false
 	for _, n := range names {
 		found = found || n == bfile
